@@ -416,6 +416,20 @@ func Read(r io.Reader) (p Packet, err error) {
 	}
 	if err != nil {
 		consumeAll(contents)
+		return
+	}
+	switch p.(type) {
+	case *Compressed, *SymmetricallyEncrypted, *LiteralData:
+		// The body of these packets is handed to the caller as a stream.
+	default:
+		// A packet ends where its length says (RFC 4880, section 4.2). Octets
+		// that the parser did not need must not stay in the stream, where they
+		// would be taken for the header of the next packet. (For key and
+		// signature packets, how many of them stayed depended on how much the
+		// bufio.Reader of peekVersion happened to have buffered.)
+		if _, err = consumeAll(contents); err != nil {
+			p = nil
+		}
 	}
 	return
 }
